@@ -26,7 +26,7 @@ ASSUMPTIONS = ['input FASTQ is well formed (4 lines per record, equal seq/qual l
                'library names are short and header-safe (a header over 255 characters is C04\'s loud refusal)',
                'per-cell output is only combined with barcode strategies (the bulk strategy writes plain strings without a cell)']
 MIN_NONTRIVIAL = {'quick': 100, 'thorough': 2000}
-REQUIRED_MONITORS = ['hook:FastqIterator.__next__', 'hook:target.write', 'hook:reject.write', 'files:strict_parsed',
+REQUIRED_MONITORS = ['fault:per_cell_file_open_refused_for_lack_of_descriptors', 'hook:FastqIterator.__next__', 'hook:target.write', 'hook:reject.write', 'files:strict_parsed',
                      'oracle:accepted_ids', 'oracle:rejected_ids', 'config:per_cell', 'config:no_reject_handle', 'config:max_read_pairs', 'config:cli', 'config:cli_multi', 'config:cli_auto', 'config:cli_per_lane_jobs', 'input:filelist', 'input:duplicate', 'input:chunked_lanes', 'input:last_line_without_newline', 'input:fastq_form:crlf', 'input:fastq_form:plusname', 'oracle:pairs_accepted_by_the_strategy_but_refused_at_write_time', 'fault:target_write_refused_every_7th', 'config:cli_strategy_named_twice']
 SHARD_TIMEOUT = {'quick': 900, 'thorough': 5400}
 
@@ -394,6 +394,25 @@ def run_case(case):
             # it has to be kept with the rejects and must not be counted
             tspy.fail_every = 7
             acc.count('fault:target_write_refused_every_7th')
+        import builtins as _bi
+        import errno as _errno
+        import zlib as _zlib
+        real_open = _bi.open
+        shortage = {'opens': 0, 'fired': 0}
+        if per_cell and name != 'ILLU' and (case['rep'] + _zlib.crc32(name.encode())) % 2 == 1:
+            # environment fault: descriptor shortage - every third open of a per-cell file fails with EMFILE while other cell files are open
+            # (closing those makes room): the writer recovers, no pair is lost, written twice or split between the outputs
+            hl_ = target.handles
+
+            def short_open(file, mode='r', *a, **k):
+                if isinstance(file, str) and file.startswith(prefix) and os.path.basename(file).startswith('demultiplexed.'):
+                    shortage['opens'] += 1
+                    others = [p_ for p_, h_ in hl_.openHandles.items() if p_ != file and h_.get('handle') is not None]
+                    if shortage['opens'] % 3 == 0 and others:
+                        shortage['fired'] += 1
+                        raise OSError(_errno.EMFILE, 'Too many open files', file)
+                return real_open(file, mode, *a, **k)
+            _bi.open = short_open
         target = tspy.wrap(target)
         reject = rspy.wrap(FastqHandle(os.path.join(prefix, 'rejects'), not single)) if use_reject else None
         log_path = os.path.join(prefix, 'demultiplexing.log')
@@ -407,6 +426,8 @@ def run_case(case):
             crashed = ex
         finally:
             fastqIterator.FastqIterator.__next__ = orig_next
+            _bi.open = real_open
+            acc.count('fault:per_cell_file_open_refused_for_lack_of_descriptors', shortage['fired'])
             try:
                 target.close()
                 if reject is not None:
